@@ -665,6 +665,15 @@ type pending struct {
 	m     map[string]*pend
 }
 
+// bump counts one more counterexample of a class already recorded (and says whether it was).
+func (p *pending) bump(class string) bool {
+	if e, ok := p.m[class]; ok {
+		e.count++
+		return true
+	}
+	return false
+}
+
 func (p *pending) add(eng, class, detail string, replay map[string]any) {
 	if p.m == nil {
 		p.m = map[string]*pend{}
@@ -775,7 +784,8 @@ func (c *ctx) index(v variant, sel []int, docs []*ref.RDoc, pd *pending) {
 					req.AddFacet(name, f.request())
 				}
 				replay := func(name string) map[string]any {
-					rp := map[string]any{"engine": v.engName(), "layout": layoutName[v.layout], "corpus": sel, "query": q.String(), "size": pg.size, "from": pg.from, "sort": pg.sort, "matching_documents": ids(matched)}
+					rp := map[string]any{"engine": v.engName(), "layout": layoutName[v.layout], "corpus": sel, "query": q.String(), "size": pg.size, "from": pg.from, "sort": pg.sort, "matching_documents": ids(matched), "documents": docData(sel),
+						"mapping": "tags: text/simple analyzer; grp: text/keyword analyzer; nums: numeric; when: datetime; doc values of tags, nums, when off for the -nodocvalues variant"}
 					fs := map[string]string{}
 					for n, f := range b {
 						fs[n] = f.String()
@@ -817,6 +827,9 @@ func (c *ctx) index(v variant, sel []int, docs []*ref.RDoc, pd *pending) {
 						if f.kind == kTerms && f.filterKind() != "nofilter" {
 							cl = "terms+filter:" + what
 						}
+						if pd.bump(cl) {
+							return
+						}
 						pd.add(v.engName(), cl, fmt.Sprintf("%s facet %s: %s", where, f, detail), replay(name))
 					})
 					if e := exp[name]; f.kind == kTerms && e.missing[0] != e.missing[1] {
@@ -839,6 +852,9 @@ func (c *ctx) index(v variant, sel []int, docs []*ref.RDoc, pd *pending) {
 					for _, name := range names {
 						if cur[name] != first[name] {
 							f := b[name]
+							if pd.bump(kindName[f.kind] + ":depends-on-page-settings") {
+								continue
+							}
 							pd.add(v.engName(), kindName[f.kind]+":depends-on-page-settings",
 								fmt.Sprintf("%s facet %s: %s, but with %s: %s", where, f, cur[name], firstPage, first[name]), replay(name))
 						}
@@ -847,6 +863,14 @@ func (c *ctx) index(v variant, sel []int, docs []*ref.RDoc, pd *pending) {
 			}
 		}
 	}
+}
+
+func docData(sel []int) map[string]any {
+	m := map[string]any{}
+	for _, i := range sel {
+		m[docID(i)] = alphabet[i]
+	}
+	return m
 }
 
 func ids(docs []*ref.RDoc) []string {
